@@ -453,8 +453,12 @@ func (s *mkServer) handle(body []byte) ([]byte, reqRec, []string) {
 }
 
 // mkTransport: recording round tripper over the semantic subgraphs.
+type subgraphHandler interface {
+	handle(body []byte) ([]byte, reqRec, []string)
+}
+
 type mkTransport struct {
-	servers map[string]*mkServer
+	servers map[string]subgraphHandler
 	mu      sync.Mutex
 	log     []reqRec
 	probs   []string
@@ -498,7 +502,7 @@ func (t *mkTransport) snapshot() ([]reqRec, int, []string) {
 
 // mkRig builds a real ExecutionEngine over the layout (same construction as fed.NewGateway).
 func mkRig(l *mkLayout, mask int) (*rig, error) {
-	t := &mkTransport{servers: map[string]*mkServer{}}
+	t := &mkTransport{servers: map[string]subgraphHandler{}}
 	for _, sg := range l.Subs {
 		srv, err := newMkServer(l, sg)
 		if err != nil {
